@@ -75,7 +75,7 @@ func Scan%[1]ss(rs *sql.Rows) (%[1]ss, error) {
 		if err != nil {
 			return nil, err
 		}
-		structs[s.Id] = s
+		structs[s.%[9]s] = s
 	}
 	if err = rs.Err(); err != nil {
 		return nil, err
@@ -177,12 +177,12 @@ func Delete%[1]ssByIDs(tx DB, ids ...%[2]s) ([]%[2]s, error) {
 						if dict == nil {
 							dict = make(%[2]ss)
 						}
-						dict[target.Id] = target
+						dict[target.%[4]s] = target
 						out[target.%[1]s] = dict
 					}
 					return out
 				}	
-				`, fieldName, goTypeName, keyTypeName)
+				`, fieldName, goTypeName, keyTypeName, ta.Columns[primaryIndex].Field.Field.Name())
 			}
 
 			content += fmt.Sprintf(`
